@@ -238,3 +238,5 @@ func verifNativeOverlap(a, b []byte) bool {
 	bs := uintptr(unsafe.Pointer(&b[:1][0]))
 	return as < bs+uintptr(cap(b)) && bs < as+uintptr(cap(a))
 }
+
+func verifStepBudgetEnd() {}
